@@ -402,7 +402,7 @@ func (sc *scen) liveHandlers() []*rpcInfo {
 
 // drain releases handlers until nothing is held and nothing is open.
 func (sc *scen) drain(what string) {
-	for i := 0; i < 200 && len(sc.fails) == 0; i++ {
+	for i := 0; i < 1000000 && len(sc.fails) == 0; i++ {
 		rs := sc.liveHandlers()
 		if len(rs) == 0 {
 			break
